@@ -176,6 +176,12 @@ pub(super) mod http1 {
         }
 
         if req.request().method() == http::Method::CONNECT {
+            if req.request().uri().authority().is_none() {
+                return Err(Error::Protocol(
+                    "CONNECT requires a request URI with an authority".into(),
+                ));
+            }
+
             authority_form(req.request_mut().uri_mut());
 
             // If the URI is to HTTPS, and the connector claimed to be a proxy,
@@ -187,7 +193,8 @@ pub(super) mod http1 {
         } else if req.request().uri().scheme().is_none()
             || req.request().uri().authority().is_none()
         {
-            absolute_form(req.request_mut().uri_mut());
+            // Nothing to strip: the URI is in origin-form (or `*`) already, which is what a
+            // transport that does not route by URI (a unix socket, say) is given.
         } else {
             origin_form(req.request_mut().uri_mut());
         }
@@ -212,6 +219,7 @@ pub(super) mod http1 {
         };
     }
 
+    #[cfg_attr(not(test), allow(dead_code))]
     fn absolute_form(uri: &mut Uri) {
         debug_assert!(uri.scheme().is_some(), "absolute_form needs a scheme");
         debug_assert!(
